@@ -6,6 +6,9 @@ package verifx
 // received with what the specification permits.
 
 import (
+	"net"
+	"errors"
+	"bufio"
 	"bytes"
 	"compress/gzip"
 	"fmt"
@@ -32,6 +35,8 @@ type C17Req struct {
 	Method string `json:"method"`
 	Late   bool   `json:"late"` // response headers set after the informational WriteHeader calls
 	Vary   string `json:"vary"` // "own": the inner handler adds a Vary value of its own
+	Buf    string `json:"buf"`  // "reused": every chunk is written from one buffer that is overwritten after Write returned
+	Via    string `json:"via"`  // which transport of the proxy serves the route: "default" | "insecure" | "target"
 }
 
 type C17Mode struct {
@@ -101,6 +106,7 @@ type C17Plan struct {
 	Chunks  [][]byte
 	Inner   []byte // concatenation of the chunks of all Write ops
 	EchoVal string
+	ViaProxy bool  // the response passes fabio's upstream transport (set by the proxy-level harness)
 	VaryVal string // the Vary value the inner handler adds ("" = none); unique, so that a leak into another response shows
 	// RefStatus is the status net/http delivered for the same script WITHOUT the gzip wrapper
 	// (0 = no reference run was made); when present it is the expected status
@@ -162,6 +168,26 @@ func C17MakePlan(b *C17Beh, hi int, n int64, big bool) *C17Plan {
 			p.Inner = append(p.Inner, c...)
 		}
 	}
+	if strings.EqualFold(p.CE, "gzip") && len(p.Inner) > 0 {
+		// an upstream that labels its body gzip sends a gzip stream (Go's transports decode such a body when THEY
+		// asked for it): compress what was planned and cut the stream into the same number of non-empty chunks
+		var zb bytes.Buffer
+		zw := gzip.NewWriter(&zb)
+		zw.Write(p.Inner)
+		zw.Close()
+		gz := zb.Bytes()
+		var idx []int
+		for i, c := range p.Chunks {
+			if len(c) > 0 {
+				idx = append(idx, i)
+			}
+		}
+		for j, i := range idx {
+			lo, hi := len(gz)*j/len(idx), len(gz)*(j+1)/len(idx)
+			p.Chunks[i] = gz[lo:hi]
+		}
+		p.Inner = gz
+	}
 	if h.Req.Cl {
 		p.CL = len(p.Inner)
 	}
@@ -211,11 +237,12 @@ func (p *C17Plan) Serve(w http.ResponseWriter, before func(i int)) {
 		setHeaders()
 	}
 	k := 0
+	var scratch []byte // the handler's one buffer (buf = "reused")
 	for i, op := range p.H.Ops {
 		if before != nil {
 			before(i)
 		}
-		if op.Ev == "w" || op.Ev == "fl" || op.Code >= 200 {
+		if op.Ev == "w" || op.Ev == "fl" || (op.Ev == "wh" && op.Code >= 200) {
 			setHeaders() // late: just before the first op that can commit the header
 		}
 		switch op.Ev {
@@ -234,14 +261,57 @@ func (p *C17Plan) Serve(w http.ResponseWriter, before func(i int)) {
 		case "wh":
 			w.WriteHeader(op.Code)
 		case "w":
-			w.Write(p.Chunks[k])
+			if p.H.Req.Buf == "reused" {
+				// as io.Copy / fmt.Fprintf do: one buffer for all chunks, overwritten as soon as Write returned
+				scratch = append(scratch[:0], p.Chunks[k]...)
+				w.Write(scratch)
+				for j := range scratch {
+					scratch[j] = '#'
+				}
+			} else {
+				w.Write(p.Chunks[k])
+			}
 			k++
+		case "hj":
+			// the handler tries to take the connection over; the writer below refuses (see the harness): it goes
+			// on with an ordinary response
+			if hj, ok := w.(http.Hijacker); ok {
+				if conn, _, err := hj.Hijack(); err == nil {
+					conn.Close() // not expected with the harness's writers; the response is gone then
+					return
+				}
+			}
 		}
 	}
 	if before != nil {
 		before(len(p.H.Ops))
 	}
 	setHeaders()
+}
+
+// C17NoHijack is a writer that HAS a Hijack method and refuses (as fabio's own responseWriter does over a
+// connection that cannot be taken over); the harnesses give it to handlers whose script tries to hijack.
+type C17NoHijack struct{ http.ResponseWriter }
+
+func (C17NoHijack) Hijack() (net.Conn, *bufio.ReadWriter, error) {
+	return nil, nil, errors.New("c17: this connection cannot be hijacked")
+}
+
+// Flush passes a flush on (the wrapped writer of net/http has one).
+func (w C17NoHijack) Flush() {
+	if f, ok := w.ResponseWriter.(http.Flusher); ok {
+		f.Flush()
+	}
+}
+
+// HasOp reports whether the script contains an op of the kind.
+func (p *C17Plan) HasOp(ev string) bool {
+	for _, op := range p.H.Ops {
+		if op.Ev == ev {
+			return true
+		}
+	}
+	return false
 }
 
 // NeedsReference: scripts with several WriteHeader calls (informational ones, repeated final ones)
@@ -304,6 +374,9 @@ func (p *C17Plan) Judge(status int, hdr http.Header, raw []byte, readErr error) 
 	}
 	// which mode does the response claim?  A response the inner handler already labelled is
 	// passed through in every permitted mode, so there the label says nothing.
+	// the client sent no Accept-Encoding at all and the upstream answers gzip-encoded: the proxy's transport asked
+	// for gzip on its own and decodes what it gets - plain HTTP content negotiation, either form may arrive
+	negotiated := p.ViaProxy && p.AE == "" && strings.EqualFold(p.CE, "gzip")
 	mode = "plain"
 	if p.CE == "" && strings.EqualFold(ce, "gzip") {
 		mode = "gzip"
@@ -316,7 +389,7 @@ func (p *C17Plan) Judge(status int, hdr http.Header, raw []byte, readErr error) 
 		}
 		add("mode-"+mode, "response delivered in %s mode (Content-Encoding %q) although %s", mode, ce, why)
 	}
-	if mode == "plain" && ce != p.CE {
+	if mode == "plain" && ce != p.CE && !negotiated {
 		add("content-encoding", "Content-Encoding %q, the inner handler set %q", ce, p.CE)
 	}
 	vary := strings.Join(hdr.Values("Vary"), ", ")
@@ -331,6 +404,9 @@ func (p *C17Plan) Judge(status int, hdr http.Header, raw []byte, readErr error) 
 	}
 	if !bodyAllowed {
 		return faults, mode // HEAD / 204 / 304: status and labels only
+	}
+	if negotiated {
+		return faults, mode
 	}
 	if p.CT != "" && hdr.Get("Content-Type") != p.CT {
 		add("content-type", "Content-Type %q, the inner handler set %q", hdr.Get("Content-Type"), p.CT)
@@ -394,7 +470,7 @@ func (p *C17Plan) Features(sub, clause string) map[string]any {
 		}
 	}
 	return map[string]any{"sub": sub, "clause": clause, "ae": p.H.Req.Ae, "ct": p.H.Req.Ct, "encoded": p.H.Req.Enc != "",
-		"sse": p.H.Req.Acc == "sse", "method": p.H.Req.Method, "informational": info, "late_headers": p.H.Req.Late, "flush": fl, "own_vary": p.VaryVal != ""}
+		"sse": p.H.Req.Acc == "sse", "method": p.H.Req.Method, "informational": info, "late_headers": p.H.Req.Late, "flush": fl, "own_vary": p.VaryVal != "", "buffer": p.H.Req.Buf, "transport": p.H.Req.Via}
 }
 
 // Describe renders the concrete request/response of the plan.
@@ -406,6 +482,8 @@ func (p *C17Plan) Describe() string {
 			ops = append(ops, fmt.Sprintf("WriteHeader(%d)", op.Code))
 		} else if op.Ev == "fl" {
 			ops = append(ops, "Flush()")
+		} else if op.Ev == "hj" {
+			ops = append(ops, "Hijack() refused")
 		} else if op.Ev == "ab" {
 			ops = append(ops, "panic(http.ErrAbortHandler)")
 		} else {
